@@ -588,20 +588,30 @@ class SqlImpl(TableImpl):
             query.order_by = []
             right_query.order_by = []
 
+            # Build left and right select statements
+            left_sel = cls.compile_query(table, query, sqa_expr)
+            right_sel = cls.compile_query(right_table, right_query, right_sqa_expr)
+
             # The union of an integer and a float column is a float column. A
-            # dynamically typed database (SQLite) keeps the integers as they are.
+            # dynamically typed database (SQLite) keeps the integers as they are, so
+            # both operands select the column as a float. (Only the select list: other
+            # clauses of the operands keep using the column as it is.)
+            to_float = set()
             for l_uid, r_uid in zip(left_select, right_query.select, strict=True):
                 l_type, r_type = sqa_expr[l_uid].type, right_sqa_expr[r_uid].type
                 if isinstance(l_type, sqa.Integer | sqa.Float) and isinstance(r_type, sqa.Integer | sqa.Float):
                     if isinstance(l_type, sqa.Float) != isinstance(r_type, sqa.Float):
-                        sqa_expr[l_uid] = sqa.label(sqa_expr[l_uid].name, sqa.cast(sqa_expr[l_uid], sqa.Double()))
-                        right_sqa_expr[r_uid] = sqa.label(
-                            right_sqa_expr[r_uid].name, sqa.cast(right_sqa_expr[r_uid], sqa.Double())
-                        )
+                        to_float |= {l_uid, r_uid}
+            if to_float and isinstance(left_sel, sqa.Select) and isinstance(right_sel, sqa.Select):
 
-            # Build left and right select statements
-            left_sel = cls.compile_query(table, query, sqa_expr)
-            right_sel = cls.compile_query(right_table, right_query, right_sqa_expr)
+                def select_list(select, exprs):
+                    return [
+                        sqa.label(exprs[uid].name, sqa.cast(exprs[uid], sqa.Double())) if uid in to_float else exprs[uid]
+                        for uid in select
+                    ]
+
+                left_sel = left_sel.with_only_columns(*select_list(left_select, sqa_expr))
+                right_sel = right_sel.with_only_columns(*select_list(right_query.select, right_sqa_expr))
 
             # If either side is a subquery, get the original CompoundSelect
             # to allow calling sa.union/union_all again
